@@ -22,7 +22,8 @@ fn fmt_pool(k: u64) -> Vec<FormatElement> {
     }
 }
 
-const POOL: u64 = 4 + 4 + 3 + 3 + 12;
+const POOL: u64 = 4 + 4 + 3 + 3 + 12 + 1;
+#[allow(deprecated)]
 fn action_pool(k: u64) -> Action {
     // "a" / "./a" : names that a path normalisation would merge must stay distinct destinations
     let files = ["a", "/dev/stdout", "./a"];
@@ -34,6 +35,7 @@ fn action_pool(k: u64) -> Action {
         4..=7 => Action::PrintFormatted(fmt_pool(k - 4)),
         8..=10 => Action::FilePrint(files[(k - 8) as usize].into()),
         11..=13 => Action::FilePrintNull(files[(k - 11) as usize].into()),
+        26 => Action::DefaultPrint, // the deprecated implicit-print node, written by hand: a print like -print
         _ => Action::FilePrintFormatted(files[((k - 14) / 4) as usize].into(), fmt_pool((k - 14) % 4)),
     }
 }
@@ -41,7 +43,8 @@ fn action_pool(k: u64) -> Action {
 /// (destination, terminator) a given action writes to; None for actions without a table entry.
 fn target_of(a: &Action) -> Option<(Dest, Option<char>)> {
     Some(match a {
-        Action::Print | Action::PrintFid => (Dest::Stdout, Some('\n')),
+        #[allow(deprecated)]
+        Action::Print | Action::PrintFid | Action::DefaultPrint => (Dest::Stdout, Some('\n')),
         Action::PrintNull => (Dest::Stdout, Some('\0')),
         Action::PrintFormatted(_) => (Dest::Stdout, None),
         Action::FilePrint(f) => (Dest::File(f.clone()), Some('\n')),
